@@ -238,22 +238,36 @@ theorem help_wrap_contract :
 
 /-! ## `help <path>` and `<path> --help` -/
 
-/-- **`help_same_page`**.  For a path of name-like tokens that does not start with `help`
-and a switch `sw` (`-h`, `--help`, any token starting with `-`): the handler's resolver sees the
-same leading tokens for `help <path>` (whose `help` token `HelpResolver` deletes) and for
-`<path> sw`, so it walks to the same command; it then selects the same page, provided the
-parses of the two lines end alike under every format (`ParseAgree`: the switch is a flag option
-of every command and consumes nothing - a fact about the parser, stated as hypothesis and
-checked on every generated case by the correspondence).  Consequently `HelpTextHandler` shows
-the same target whenever the `help` command received the path as its `command` argument in both
-spellings. -/
-theorem help_same_page (cv : Conv) (app : List Cmd) (path : List Str) (sw : Str)
+/-- `args.is_argument_set("command")`: did the `help` command receive names? -/
+def helpArgSet (a : Args) : Bool := dictHas (S "command") a.args
+
+/-- The full statement: with the default wiring - `help <path>` resolves to the `help`
+command which receives the path as its `command` argument, the listener finds the `help`
+command and its lenient parse of `<path> sw` receives the same path, and the switch is an
+option that every format accepts without consuming anything (`ParseAgree`) - the two
+spellings show the same page.  `help_same_page_partial` proves exactly this; what is NOT
+proved is that the parser model satisfies the three parser facts for every well-formed
+default configuration (they are checked on every generated case by the correspondence). -/
+def help_same_page_full : Prop :=
+  ∀ (cv : Conv) (app : List Cmd) (path : List Str) (sw : Str) (h : Cmd) (a a' : Args),
+    (∀ p ∈ path, C03.nameLike p = true) → path.head? ≠ some helpName → sw.head? = some '-' →
+    hasSwitch (helpName :: path) = false → hasSwitch (path ++ [sw]) = true →
+    resolve cv app (helpName :: path) = .ok ([helpName], a) →
+    (Coll.ofList app).get? helpName = some h → parse cv h.fmt true (path ++ [sw]) = .ok a' →
+    helpArgSet a = helpArgSet a' → ParseAgree cv path (path ++ [sw]) →
+    helpTarget cv app (helpName :: path) = helpTarget cv app (path ++ [sw])
+
+/-- **`help_same_page`** (no assumption about the parser).  For a path of name-like tokens
+that does not start with `help` and a switch `sw` (`-h`, `--help`, any token starting with `-`):
+`HelpResolver` deletes the `help` token of `help <path>` and leaves `<path> sw` alone, both
+lines then have the same leading tokens - the path - so the resolver of C03 walks to the same
+command (and reports the same undefined command when the path names none). -/
+theorem help_same_page (app : List Cmd) (path : List Str) (sw : Str)
     (hp : ∀ p ∈ path, C03.nameLike p = true) (hh : path.head? ≠ some helpName) (hsw : sw.head? = some '-') :
-    lead (stripHelp (helpName :: path)) = lead (stripHelp (path ++ [sw])) ∧
-    (ParseAgree cv path (path ++ [sw]) →
-      helpResolve cv app (stripHelp (helpName :: path)) = helpResolve cv app (stripHelp (path ++ [sw])) ∧
-      ∀ a a' : Args, dictHas (S "command") a.args = dictHas (S "command") a'.args →
-        handlerTarget cv app (helpName :: path) a = handlerTarget cv app (path ++ [sw]) a') := by
+    stripHelp (helpName :: path) = path ∧ stripHelp (path ++ [sw]) = path ++ [sw] ∧
+    lead (stripHelp (helpName :: path)) = path ∧ lead (stripHelp (path ++ [sw])) = path ∧
+    walk (namedColl app) none (lead (stripHelp (helpName :: path)))
+      = walk (namedColl app) none (lead (stripHelp (path ++ [sw]))) := by
   have h1 : stripHelp (helpName :: path) = path := by simp [stripHelp]
   have h2 : stripHelp (path ++ [sw]) = path ++ [sw] := by
     cases path with
@@ -271,29 +285,42 @@ theorem help_same_page (cv : Conv) (app : List Cmd) (path : List Str) (sw : Str)
         simp only [List.head?_cons, ne_eq, Option.some.injEq] at hh
         simpa using hh
       simp [stripHelp, this]
-  have hl : lead path = lead (path ++ [sw]) := by
-    rw [C03.lead_of_path path hp, C03.options_after_path path [] sw hp hsw]
-  refine ⟨by rw [h1, h2]; exact hl, ?_⟩
-  intro hagree
-  have hr : helpResolve cv app (stripHelp (helpName :: path)) = helpResolve cv app (stripHelp (path ++ [sw])) := by
-    rw [h1, h2]; exact helpResolve_congr cv app _ _ hl hagree
-  refine ⟨hr, ?_⟩
-  intro a a' hset
-  unfold handlerTarget
-  rw [hset, hr]
+  have l1 : lead path = path := C03.lead_of_path path hp
+  have l2 : lead (path ++ [sw]) = path := C03.options_after_path path [] sw hp hsw
+  refine ⟨h1, h2, by rw [h1, l1], by rw [h2, l2], by rw [h1, h2, l1, l2]⟩
 
-/-- `help_same_page` at the level of `helpTarget`: if `help <path>` resolves to the `help`
-command (no switch on the line) and the listener parses `<path> --help` for it, the two lines
-show the same page. -/
-theorem help_same_page_target (cv : Conv) (app : List Cmd) (path : List Str) (sw : Str) (h : Cmd) (a a' : Args)
-    (hp : ∀ p ∈ path, C03.nameLike p = true) (hh : path.head? ≠ some helpName) (hsw : sw.head? = some '-')
-    (hno : hasSwitch (helpName :: path) = false) (hyes : hasSwitch (path ++ [sw]) = true)
-    (hres : resolve cv app (helpName :: path) = .ok ([helpName], a))
-    (hget : (Coll.ofList app).get? helpName = some h) (hpar : parse cv h.fmt true (path ++ [sw]) = .ok a')
-    (hset : dictHas (S "command") a.args = dictHas (S "command") a'.args)
-    (hagree : ParseAgree cv path (path ++ [sw])) :
-    helpTarget cv app (helpName :: path) = helpTarget cv app (path ++ [sw]) := by
-  have := ((help_same_page cv app path sw hp hh hsw).2 hagree).2 a a' hset
+/-- **`help_same_page_partial`**: the page is the same, given the parser facts of
+`help_same_page_full` - first for the handler's resolver and `HelpTextHandler.handle`, then for
+`helpTarget` as a whole (this is `help_same_page_full`). -/
+theorem help_same_page_partial :
+    (∀ (cv : Conv) (app : List Cmd) (path : List Str) (sw : Str),
+      (∀ p ∈ path, C03.nameLike p = true) → path.head? ≠ some helpName → sw.head? = some '-' →
+      ParseAgree cv path (path ++ [sw]) →
+      helpResolve cv app (stripHelp (helpName :: path)) = helpResolve cv app (stripHelp (path ++ [sw])) ∧
+      ∀ a a' : Args, helpArgSet a = helpArgSet a' →
+        handlerTarget cv app (helpName :: path) a = handlerTarget cv app (path ++ [sw]) a') ∧
+    help_same_page_full := by
+  have part1 : ∀ (cv : Conv) (app : List Cmd) (path : List Str) (sw : Str),
+      (∀ p ∈ path, C03.nameLike p = true) → path.head? ≠ some helpName → sw.head? = some '-' →
+      ParseAgree cv path (path ++ [sw]) →
+      helpResolve cv app (stripHelp (helpName :: path)) = helpResolve cv app (stripHelp (path ++ [sw])) ∧
+      ∀ a a' : Args, helpArgSet a = helpArgSet a' →
+        handlerTarget cv app (helpName :: path) a = handlerTarget cv app (path ++ [sw]) a' := by
+    intro cv app path sw hp hh hsw hagree
+    obtain ⟨h1, h2, l1, l2, _⟩ := help_same_page app path sw hp hh hsw
+    have hr : helpResolve cv app (stripHelp (helpName :: path)) = helpResolve cv app (stripHelp (path ++ [sw])) := by
+      have hl : lead path = lead (path ++ [sw]) := by
+        rw [h1] at l1; rw [h2] at l2; rw [l1, l2]
+      rw [h1, h2]
+      exact helpResolve_congr cv app _ _ hl hagree
+    refine ⟨hr, ?_⟩
+    intro a a' hset
+    unfold helpArgSet at hset
+    unfold handlerTarget
+    rw [hset, hr]
+  refine ⟨part1, ?_⟩
+  intro cv app path sw h a a' hp hh hsw hno hyes hres hget hpar hset hagree
+  have := (part1 cv app path sw hp hh hsw hagree).2 a a' hset
   simp only [helpTarget, hno, hyes, hres, hget, hpar, this, Bool.false_eq_true, if_false, if_true, beq_self_eq_true]
 
 /-- both switches of the default configuration are switches in the sense of `help_same_page` -/
